@@ -13,7 +13,7 @@ structural necessary conditions (DESIGN §4 C03):
  R4 constraints are matched with the argument's canonical key (shared with C02-R3:
     with the raw key '-a --outp 3' is rejected although requires("o,output") is met)"""
 from .. import rules
-from ..rules import callee_is, object_of, field_name, call_args, mentions_field
+from ..rules import callee_is, object_of, field_name, call_args, mentions_field, mentions_var
 from ..facts import children, strip_all_casts, walk, CALL_KINDS, AnalysisBroken
 from ..boolshape import Interp, NeedAtom, Unsupported
 from .. import effects
@@ -94,6 +94,126 @@ def r3(chk, prog):
             chk.check(bool(sets), 'R3', g.name, 'ScopedFlag constructor sets the bit', g.loc())
 
 
+def r5_every_count_guarded(chk, prog):
+    """every place that counts a value against the cardinality (a call of ICardinality::gotValue) does so only for
+    command-line input: it is control-dependent on the ignore_cardinality parameter of assignValue() being false,
+    or on a member that assignValue() sets from that parameter before it calls assign()"""
+    av = prog.one('celma::prog_args::detail::TypedArgBase', 'assignValue')
+    ign = av.params[0]['name']
+    cfg_av = av.cfg
+    assigns = [c for c in av.calls() if callee_is(c, 'TypedArgBase::assign')]
+    chk.require(assigns, 'assignValue does not call assign()')
+    # members that carry the parameter: F = <expr with ignore_cardinality>, before assign()
+    carriers = {}
+    for n in av.walk():
+        if n.get('k') == 'BinaryOperator' and n.get('op') == '=' and field_name(children(n)[0]) and \
+                mentions_var(children(n)[1], ign):
+            if all(cfg_av.node_dominates(n, a) for a in assigns):
+                rhs = strip_all_casts(children(n)[1])
+                neg = rhs.get('k') == 'UnaryOperator' and rhs.get('op') == '!'
+                carriers[field_name(children(n)[0])] = neg       # neg: the member holds 'count it'
+    sites = []
+    for f in prog.functions:
+        if f.body is None:
+            continue
+        for c in f.calls():
+            if (c.get('callee') or '').endswith('ICardinality::gotValue'):
+                sites.append((f, c))
+    chk.require(len(sites) >= 5, 'calls of ICardinality::gotValue found: %d' % len(sites))
+    seen = set()
+    for f, c in sites:
+        key = (f.file, f.line, c.get('l'))
+        if key in seen:
+            continue            # instantiations of the same template line
+        seen.add(key)
+        ok = False
+        for ifs, branch in enclosing_ifs(f, c):
+            if branch != 'then':
+                continue
+            cond = if_condition(ifs)
+            for atom in walk(cond):
+                want = None
+                if f is av and atom.get('k') == 'DeclRefExpr' and atom.get('ref', {}).get('name') == ign:
+                    want = False                      # ignore_cardinality must be false
+                elif atom.get('k') == 'MemberExpr' and atom.get('ref', {}).get('name') in carriers:
+                    want = carriers[atom['ref']['name']]
+                if want is None:
+                    continue
+                # the call is in the then-branch of a condition that is a conjunction containing the (possibly
+                # negated) atom with the wanted polarity
+                pol = polarity(cond, atom)
+                if pol is not None and pol == want:
+                    ok = True
+        chk.check(ok, 'R5', f.name, 'a value is counted against the cardinality only for command-line input '
+                  '(guarded by the ignore_cardinality information)', f.loc(c),
+                  'the count is not control-dependent on ignore_cardinality or a member carrying it')
+
+
+def if_condition(ifs):
+    """IfStmt children: [init / condition variable declarations ...] cond then [else]"""
+    kids = [k for k in ifs.get('c', []) if isinstance(k, dict)]
+    rest = [k for k in kids if k.get('k') != 'DeclStmt'] if kids and kids[0].get('k') == 'DeclStmt' else kids
+    return rest[0] if rest else None
+
+
+def enclosing_ifs(f, node):
+    """IfStmts around node with the branch ('then'/'else') that contains it, innermost first"""
+    res = []
+
+    def visit(n, stack):
+        if n is node:
+            res.extend(reversed(stack))
+            return True
+        if not isinstance(n, dict):
+            return False
+        if n.get('k') == 'IfStmt':
+            kids = [k for k in n.get('c', []) if isinstance(k, dict)]
+            cond = if_condition(n)
+            after = kids[kids.index(cond) + 1:] if cond in kids else []
+            for k in kids:
+                if k is cond or k not in after:
+                    if visit(k, stack):
+                        return True
+            for i, k in enumerate(after):
+                if visit(k, stack + [(n, 'then' if i == 0 else 'else')]):
+                    return True
+            return False
+        for k in children(n):
+            if visit(k, stack):
+                return True
+        if n.get('k') == 'DeclStmt':
+            for d in n.get('decls', []):
+                if isinstance(d.get('init'), dict) and visit(d['init'], stack):
+                    return True
+        return False
+    visit(f.body, [])
+    return res
+
+
+def polarity(cond, atom):
+    """truth value the atom must have for the conjunction `cond` to be true; None if atom is not a conjunct"""
+    c = strip_all_casts(cond)
+    while c.get('k') == 'ParenExpr':
+        c = strip_all_casts(children(c)[0])
+    if c is atom:
+        return True
+    if c.get('k') == 'ImplicitCastExpr' or c.get('k') == 'ExprWithCleanups':
+        return polarity(children(c)[0], atom)
+    if c.get('k') == 'UnaryOperator' and c.get('op') == '!':
+        p = polarity(children(c)[0], atom)
+        return None if p is None else (not p)
+    if c.get('k') == 'BinaryOperator' and c.get('op') == '&&':
+        for k in children(c):
+            p = polarity(k, atom)
+            if p is not None:
+                return p
+        return None
+    # a leaf that mentions the atom directly (e.g. an implicit conversion chain)
+    if any(x is atom for x in walk(c)) and c.get('k') in ('MemberExpr', 'DeclRefExpr'):
+        return True
+    return None
+
+
 def run(chk):
     prog, units = rules.prog_args_program()
     chk.units = units
@@ -112,6 +232,8 @@ def run(chk):
     c05.r2(chk, prog, rule='R1')
     c02_shapes.run(chk, prog, rule='R2')
     r3(chk, prog)
+    chk.rule('R5', 'every count against the cardinality is guarded by the ignore_cardinality information', 5)
+    r5_every_count_guarded(chk, prog)
     sub = type(chk)(chk.pid, chk.tier)
     sub._known = []
     c02.r3_canonical_key(sub, prog)
